@@ -22,7 +22,21 @@ CLAIMED = {
         "note": "trusted: numpy; frame conversions and the analytic Sun are taken from the pristine node (C02/C11/C18 territory); for two iterations consumed at the same time through one listener object (the plan's own doing) nothing is asserted about events; inside visibility streams completeness is asserted for the station listeners only (the others are filtered below the horizon by design)",
         "ref": "DESIGN.md 5.3",
     },
+    "C14": {
+        "level": "exploration",
+        "technique": "deterministic simulation: seeded histories of covariance / state frame changes with faults injected at the k-th callee of a conversion, pickles crossing a simulated process boundary and transparent cache drops; reference model R C R^T from the original matrix (own QSW/TNW axes, pristine-node single-hop rotation) evaluated for every heap object after every operation",
+        "text": "seeded search over histories (1..5 operations) on a state in each non-rotating frame with a symmetric PSD covariance attached in that frame (given as Frame or by name) or in QSW/TNW: cov.frame = T, state.frame = T, cov.copy(frame=T), state.copy(frame=T) (copies join the heap), pickling through another process, cache drops and failing variants (unknown frame, Hill, exception injected at the k-th expand / to_local / get_frame / form-edge / transform callee), T in the 10 built-in frames + QSW + TNW, with zero or real IERS EOP. After every operation every heap object's covariance is compared with R C0 R^T computed from the original matrix only (so the result cannot depend on the frames visited), checked symmetric, PSD, with unchanged position-block eigenvalues, the state untouched / dragged covariance following, and after a failure everything as before. Sampling, not proof.",
+        "note": "trusted: numpy, the pristine node's single-hop orientation matrix F0 -> T (its correctness is C02, not applicable); for Earth-fixed targets the 6x6 result is compared with the pristine single hop including its rate coupling (the statement does not say whether the coupling belongs to a 'pure rotation') and the position block with R C_pp R^T; velocity-block tolerance is conditioned by omega x sigma_r once an Earth-fixed frame has been visited",
+        "ref": "DESIGN.md 5.4",
+    },
+    "C15": {
+        "level": "exploration",
+        "technique": "deterministic simulation: seeded histories of copy / convert / assign / pickle operations over a heap of states with faults injected at the k-th callee boundary of a conversion (and natural failures), pickles delivered to another simulated process or across a restart; per-object snapshot model compared after every operation",
+        "text": "seeded search over histories (<= 6 operations) on a heap of state vectors / orbits with or without covariance, maneuvers and metadata: copies (plain, form, frame, same=), in-place form / frame / covariance-frame changes into built-in, station, orbit- and ephemeris-attached frames, element / metadata / maneuver / covariance assignments, as_orbit / as_statevector, pickling to the same process, another process or across a restart, and failing variants of every converting operation (unknown names, Hill, ephemeris out of range, and an exception injected at the k-th form-edge / rotation / centre-offset / transform / covariance callee). After every operation: every other heap object bit-identical, no shared buffers / lists / dicts, receiver untouched by pure conversions, previous labels and values after a failure and object still usable, access by name / alias / index agreeing with the form's ordering, round trips preserving content and convertibility. Sampling, not proof.",
+        "note": "trusted: numpy, pickle; asynchronous exceptions are not injected; sharing *inside* a Man object between a copy and its source is not examined; as_orbit/as_statevector results are allowed to share covariance / maneuver list / metadata with their source (only values and metadata preservation is stated for them)",
+        "ref": "DESIGN.md 5.5",
+    },
 }
 
 # claimed in DESIGN.md, check not yet registered
-PENDING = {k: 'designed in DESIGN.md section 5; its check is still under construction in this build phase and is therefore not claimed yet' for k in ['C03','C12','C13','C14','C15','C18']}
+PENDING = {k: 'designed in DESIGN.md section 5; its check is still under construction in this build phase and is therefore not claimed yet' for k in ['C03','C12','C13','C18']}
